@@ -1,6 +1,6 @@
 """C16 - assembly is a pure, deterministic function of its inputs (DESIGN.md section 3, C16).
 
-History explorer: an alphabet of 21 assemble() calls (programs that define constants / labels / register aliases other
+History explorer: an alphabet of 25 assemble() calls (programs that define constants / labels / register aliases other
 programs use WITHOUT defining, programs failing in five different passes, compressed / uncompressed, a path program
 with an include whose files are rewritten between calls, shared / differing include_dirs, dictionaries supplied or omitted); all histories up to the
 stated length (see coverage.bound) are executed, each in one fresh interpreter (one child process per history), and every step's complete result (bytes
@@ -19,10 +19,10 @@ from mc import kernel, trees
 
 PROP = 'C16'
 CHILD = os.path.join(os.path.dirname(os.path.dirname(os.path.abspath(__file__))), 'c16_child.py')
-OPS = ['def', 'use_const', 'use_label', 'use_alias', 'def_nd', 'use_const_nd', 'use_label_nd', 'use_alias_nd', 'fail_parse', 'fail_const', 'fail_enc', 'fail_data', 'ok_c', 'ok_u', 'many', 'board1', 'board2', 'incX', 'incY', 'path_A', 'path_B']
+OPS = ['def', 'use_const', 'use_label', 'use_alias', 'def_nd', 'use_const_nd', 'use_label_nd', 'use_alias_nd', 'fail_parse', 'fail_const', 'fail_enc', 'fail_data', 'ok_c', 'ok_u', 'many', 'board1', 'board2', 'incX', 'incY', 'incfail', 'incgood', 'sharedAB', 'sharedBA', 'path_A', 'path_B']
 
 
-OBSERVERS = ['use_const', 'use_label', 'use_alias', 'use_const_nd', 'use_label_nd', 'use_alias_nd', 'board2', 'incY', 'path_B']
+OBSERVERS = ['use_const', 'use_alias', 'use_const_nd', 'use_label_nd', 'board2', 'incY', 'incgood', 'sharedBA', 'path_B']
 
 
 def child(hist, hashseed='0', tag='h'):
